@@ -468,7 +468,7 @@ inst!(m_finder_n2_sse2, [props=C03+C05+C14 tier=quick cfg=x86std+x86none t=1800 
     meta::finder::<2, 20>(1, 0, 20));
 inst!(m_finder_n3_sse2, [props=C03 xprops=C05+C14 tier=thorough cfg=x86std t=1800 role=finder-packed-sse2 uw=@RK;@TWNEW;@TWOFF;with_ranker:6;oracle:6;@PP], 3,
     meta::finder::<3, 20>(1, 0, 20));
-inst!(m_finder_n4_sse2_36, [props=C03 xprops=C05+C14 tier=thorough cfg=x86std t=3600 role=finder-packed-sse2 uw=@RK;@TWNEW;@TWOFF;with_ranker:6;oracle:6;@PP], 3,
+inst!(m_finder_n4_sse2_36, [props=C03 xprops=C05+C14 tier=manual cfg=x86std t=3600 role=finder-packed-sse2 uw=@RK;@TWNEW;@TWOFF;with_ranker:6;oracle:6;@PP], 3,
     meta::finder::<4, 36>(1, 16, 36));
 // mode 2 = AVX2: the AVX2 finder falls back to its SSE2 half below 32+index bytes
 inst!(m_finder_n2_avx2_36, [props=C03 xprops=C05+C14 tier=thorough cfg=x86std t=1800 role=finder-packed-avx2 uw=@RK;@TWNEW;@TWOFF;with_ranker:6;oracle:6;@PP32], 3,
@@ -485,9 +485,9 @@ inst!(m_finder_rev_n2_rk, [props=C04 xprops=C05+C14 tier=quick cfg=x86std+generi
     meta::finder_rev::<2, 15>(0, 15));
 inst!(m_finder_rev_n3_rk, [props=C04 xprops=C05+C14 tier=thorough cfg=x86std t=1800 role=finderrev-rabinkarp uw=@RK;@TWNEW;@TWOFF;with_ranker:6;oracle:6], 3,
     meta::finder_rev::<3, 15>(0, 15));
-inst!(m_finder_rev_n2_tw16, [props=C04 xprops=C05+C14 tier=thorough cfg=x86std+generic t=1800 role=finderrev-twoway-routing uw=@RK;@TW:2:17;oracle:6], 3,
+inst!(m_finder_rev_n2_tw16, [props=C04 xprops=C05+C14 tier=manual cfg=x86std+generic t=1800 role=finderrev-twoway-routing uw=@RK;@TW:2:17;oracle:6], 3,
     meta::finder_rev::<2, 17>(16, 17));
-inst!(m_finder_rev_n3_tw, [props=C04 xprops=C05+C14 tier=thorough cfg=x86std t=5400 role=finderrev-twoway-routing uw=@RK;@TW:3:18;oracle:6], 3,
+inst!(m_finder_rev_n3_tw, [props=C04 xprops=C05+C14 tier=manual cfg=x86std t=5400 role=finderrev-twoway-routing uw=@RK;@TW:3:18;oracle:6], 3,
     meta::finder_rev::<3, 18>(15, 18));
 // no SIMD available on x86 (mode 0): Two-Way + the portable prefilter
 inst!(m_finder_n2_nosimd_rk, [props=C03 xprops=C05+C14 tier=quick cfg=generic t=1800 role=finder-nosimd-rabinkarp uw=@RK;@TWNEW;@TWOFF;with_ranker:6;oracle:6;find_prefilter.0:2;@MEMCHR], 3,
@@ -498,7 +498,7 @@ inst!(m_finder_n2_nosimd_tw, [props=C03 xprops=C05+C14 tier=manual cfg=generic t
 inst!(b_rk_fwd_4_10, [props=C12 xprops=C05+C14 tier=thorough cfg=x86std t=5400 role=rabinkarp-fwd uw=is_equal_raw:3;Hash:6;rabinkarp::Finder::new:6;rabinkarp::FinderRev::new:6;find_raw:12;rfind_raw:12;oracle:6], 4, blocks::rabinkarp::<4, 10>(false, 0));
 inst!(b_rk_rev_4_10, [props=C12 xprops=C05+C14 tier=manual cfg=x86std t=5400 role=rabinkarp-rev uw=is_equal_raw:3;Hash:6;rabinkarp::Finder::new:6;rabinkarp::FinderRev::new:6;find_raw:12;rfind_raw:12;oracle:6], 4, blocks::rabinkarp::<4, 10>(true, 0));
 inst!(m_oneshot_fwd_4_10, [props=C03 xprops=C05+C14 tier=thorough cfg=x86std t=5400 role=memmem-find-oneshot uw=is_equal_raw:3;Hash:6;rabinkarp::Finder::new:6;rabinkarp::FinderRev::new:6;find_raw:12;rfind_raw:12;oracle:6], 4, meta::oneshot::<4, 10>(false));
-inst!(m_oneshot_rev_4_10, [props=C04 xprops=C05+C14 tier=thorough cfg=x86std t=5400 role=memmem-rfind-oneshot uw=is_equal_raw:3;Hash:6;rabinkarp::Finder::new:6;rabinkarp::FinderRev::new:6;find_raw:12;rfind_raw:12;oracle:6], 4, meta::oneshot::<4, 10>(true));
+inst!(m_oneshot_rev_4_10, [props=C04 xprops=C05+C14 tier=manual cfg=x86std t=5400 role=memmem-rfind-oneshot uw=is_equal_raw:3;Hash:6;rabinkarp::Finder::new:6;rabinkarp::FinderRev::new:6;find_raw:12;rfind_raw:12;oracle:6], 4, meta::oneshot::<4, 10>(true));
 
 inst!(b_twoway_fwd_n3_8, [props=C12+C03+C08 xprops=C05+C14 tier=quick cfg=x86std t=1800 role=twoway-fwd uw=@TW:3:8;oracle:5], 4, blocks::twoway_n::<3, 8>(false));
 inst!(b_twoway_rev_n3_8, [props=C12+C04+C08 xprops=C05+C14 tier=quick cfg=x86std t=1800 role=twoway-rev uw=@TW:3:8;oracle:5], 4, blocks::twoway_n::<3, 8>(true));
